@@ -207,7 +207,9 @@ def match_known(known, pid, viol):
         sig = k.get('sig')
         if sig is None or sig == viol.get('sig'):
             return k
-        if isinstance(sig, dict) and isinstance(viol.get('sig'), dict) and all(viol['sig'].get(a) == b for a, b in sig.items()):
+        # partial match: every key of the recorded signature must agree; a recorded list means "any of these values"
+        if isinstance(sig, dict) and isinstance(viol.get('sig'), dict) and all(
+                (viol['sig'].get(a) == b) or (isinstance(b, list) and not isinstance(viol['sig'].get(a), list) and viol['sig'].get(a) in b) for a, b in sig.items()):
             return k
     return None
 
